@@ -44,6 +44,7 @@ type Directives struct {
 	GuardErrors bool // every non-nil error obtained from a callee leads to a non-nil returned error
 	CyclicLemma bool // lemma on a cycle of lemma uses (uses inside the cycle give no facts)
 	Decreases string // lemma: termination measure for self-recursive (inductive) use
+	PureFuncValues bool // calls through func-typed variables are uninterpreted pure functions in this VC
 	SpecFrame bool // emit pairwise frame facts for spec applications over slices (window-only dependence)
 	Uninterp bool // spec function: always an uninterpreted function (its Go body is only used when replaying)
 	Unfold  int // spec functions: recursion is inlined up to this depth (then uninterpreted)
@@ -136,6 +137,8 @@ func parseDirectives(cg *ast.CommentGroup) *Directives {
 			d.Uninterp = true
 		case "spec-frame":
 			d.SpecFrame = true
+		case "pure-funcvalues":
+			d.PureFuncValues = true
 		case "decreases":
 			d.Decreases = strings.TrimSpace(strings.TrimPrefix(strings.TrimSpace(line), "decreases"))
 		case "guard-errors":
@@ -418,6 +421,8 @@ func (p *Prog) indexPkg(pk *packages.Package, main bool) {
 			fi.Dir = parseDirectives(fd.Doc)
 			if ghostFile {
 				switch {
+				case strings.HasPrefix(obj.Name(), "fieldcontract_"):
+					fi.Kind = "fieldcontract"
 				case strings.HasPrefix(obj.Name(), "contract_"):
 					fi.Kind = "contract"
 				case strings.HasPrefix(obj.Name(), "lemma_"), strings.HasPrefix(obj.Name(), "Lemma_"):
